@@ -347,6 +347,22 @@ func pointMutants(ctID string, root *cborx.Node, path []int, where string) []mut
 	})
 	mk("hash-first", "a chain point [hash, slot] is accepted", func(p *cborx.Node) { p.Items = []*cborx.Node{hash(), slot()} })
 	mk("negative-slot", "a chain point with a negative slot is accepted", func(p *cborx.Node) { p.Items = []*cborx.Node{cborx.I(-5), hash()} })
+	// point = [slot: uint, hash: bytes] – every other type in either position is forbidden
+	mk("hash-null", "a chain point whose hash is null is accepted", func(p *cborx.Node) { p.Items = []*cborx.Node{slot(), cborx.Null()} })
+	mk("hash-undefined", "a chain point whose hash is undefined is accepted", func(p *cborx.Node) { p.Items = []*cborx.Node{slot(), cborx.Undef()} })
+	mk("hash-uint-array", "a chain point whose hash is an array of small integers is accepted", func(p *cborx.Node) {
+		p.Items = []*cborx.Node{slot(), cborx.A(cborx.U(1), cborx.U(2), cborx.U(3))}
+	})
+	mk("hash-empty-array", "a chain point whose hash is an empty array is accepted", func(p *cborx.Node) { p.Items = []*cborx.Node{slot(), cborx.A()} })
+	mk("hash-tagged", "a chain point whose hash is a tag-wrapped byte string is accepted", func(p *cborx.Node) {
+		p.Items = []*cborx.Node{slot(), cborx.T(24, hash())}
+	})
+	mk("hash-uint", "a chain point whose hash is an unsigned integer is accepted", func(p *cborx.Node) { p.Items = []*cborx.Node{slot(), cborx.U(7)} })
+	mk("hash-map", "a chain point whose hash is a map is accepted", func(p *cborx.Node) { p.Items = []*cborx.Node{slot(), cborx.M()} })
+	mk("slot-null", "a chain point whose slot is null is accepted", func(p *cborx.Node) { p.Items = []*cborx.Node{cborx.Null(), hash()} })
+	mk("slot-bytes", "a chain point whose slot is a byte string is accepted", func(p *cborx.Node) { p.Items = []*cborx.Node{cborx.B([]byte{1}), hash()} })
+	mk("slot-array", "a chain point whose slot is an array is accepted", func(p *cborx.Node) { p.Items = []*cborx.Node{cborx.A(cborx.U(1)), hash()} })
+	mk("slot-bool", "a chain point whose slot is a boolean is accepted", func(p *cborx.Node) { p.Items = []*cborx.Node{cborx.Bool(true), hash()} })
 	return out
 }
 
